@@ -48,7 +48,11 @@ type c06Node struct {
 
 // c06Accept is the reference acceptor: a stack machine with comment/raw modes.
 // It returns the reference tree when the sequence is accepted.
-func c06Accept(seq []int) (root *c06Node, ok bool) {
+func c06Accept(seq []int, style ...int) (root *c06Node, ok bool) {
+	st := 0
+	if len(style) > 0 {
+		st = style[0]
+	}
 	root = &c06Node{kind: "root"}
 	type frame struct {
 		block *c06Node
@@ -67,7 +71,7 @@ func c06Accept(seq []int) (root *c06Node, ok bool) {
 			if sym.kind == "end" && sym.name == mode {
 				mode = ""
 			} else if rawNode != nil {
-				rawNode.text += src
+				rawNode.text += c06Styled(src, st) // the body of a raw block is emitted in the spelling it was written in
 			}
 			continue
 		}
@@ -220,15 +224,29 @@ func c06RefShape(n *c06Node, sb *strings.Builder) {
 }
 
 type c06Case struct {
-	Seq []int `json:"seq"`
+	Seq   []int `json:"seq"`
+	Style int   `json:"style,omitempty"` // 0 plain; 1 {%- tag -%}; 2 {%-tag-%} (hyphens glued to the tag); 3 {%tag%}
+}
+
+// c06Styled re-spells the tags of a source in another, equally valid style.
+func c06Styled(src string, style int) string {
+	switch style {
+	case 1:
+		return strings.NewReplacer("{% ", "{%- ", " %}", " -%}").Replace(src)
+	case 2:
+		return strings.NewReplacer("{% ", "{%-", " %}", "-%}").Replace(src)
+	case 3:
+		return strings.NewReplacer("{% ", "{%", " %}", "%}").Replace(src)
+	}
+	return src
 }
 
 var c06Engine = liquid.NewEngine()
 var c06Binds = map[string]any{"a": []any{1}}
 
-func c06Check(seq []int, s *hx.Sub) *hx.Violation {
-	src := c06Source(seq)
-	ref, accept := c06Accept(seq)
+func c06Check(seq []int, s *hx.Sub, style int) *hx.Violation {
+	src := c06Styled(c06Source(seq), style)
+	ref, accept := c06Accept(seq, style)
 	var tpl *liquid.Template
 	var perr liquid.SourceError
 	if pi := hx.Guard(func() { tpl, perr = c06Engine.ParseString(src) }); pi != nil {
@@ -292,7 +310,7 @@ var c06Seq = hx.Define("c06.sequences", func(c *c06Case, s *hx.Sub) *hx.Violatio
 			return hx.V("harness-error", "bad symbol %d", si)
 		}
 	}
-	if v := c06Check(c.Seq, s); v != nil {
+	if v := c06Check(c.Seq, s, c.Style); v != nil {
 		return v
 	}
 	if c06Structural(c.Seq) {
@@ -434,7 +452,7 @@ func TestC06(t *testing.T) {
 			}
 			seqs.Sub.Class("one-edit")
 		}
-		if v := seqs.Run(&c06Case{Seq: seq}); v != nil {
+		if v := seqs.Run(&c06Case{Seq: seq, Style: rapid.IntRange(0, 3).Draw(t, "style")}); v != nil {
 			t.Fatalf("%s", v.Message)
 		}
 	})
